@@ -1793,7 +1793,7 @@ def correspond(ctx, res):
         ops += [(o, m, "exhaustive") for o, m in exhaustive_ops()]
         n_exh = len(ops) - n_exh0
         ops += [(o, m, "storage") for o, m in storage_ops(ctx.rng)]
-        n = ctx.n(1000, 30000)
+        n = ctx.n(1000, 40000)
         for i in range(n):
             r = i % 20
             if r < 5:
